@@ -25,6 +25,22 @@ def cmd_replay(a):
     trace = doc["trace"] if "trace" in doc else doc
     pid = trace["prop"]
     pm = engine.prop_module(pid)
+    if doc.get("xinterp"):
+        # interpreter-identity violation: the trace is executed in two fresh interpreters that
+        # differ only in PYTHONHASHSEED; the recorded per-step signatures must be equal
+        from qsim import check
+        job = {"seed": trace.get("seed"), "trace": trace}
+        diff, err = check.xinterp_diff([job], doc["xinterp"]["hashseeds"])
+        if err:
+            print("HARNESS-ERROR " + err, file=sys.stderr)
+            return 2
+        print("REPLAY-RESULT " + json.dumps({"violations": [{"cls": doc["violation"]["cls"], "step": d_["step"],
+                                                             "detail": d_["detail"]} for d_ in diff], "hist": ""}))
+        if diff:
+            print(f"  violated oracle=interpreter_identity step={diff[0]['step']}: {diff[0]['detail']}")
+            print(f"VIOLATION property={pid} replay={os.path.abspath(a.file)}")
+            return 1
+        return 0
     known = [e for e in engine.load_known_findings() if e["property"] == pid]
     worlds = (trace["world"],) + ((trace["compare_world"],) if trace.get("compare_world") else ())
     pools = engine.Pools(worlds, nworkers=len(worlds))
@@ -58,6 +74,25 @@ def cmd_replay(a):
     return 0
 
 
+def cmd_xrun(a):
+    """(internal) run the jobs of a file in this interpreter and print per-step signatures."""
+    with open(a.file) as f:
+        doc = json.load(f)
+    jobs = doc["jobs"]
+    worlds = tuple(sorted({j["trace"]["world"] for j in jobs}))
+    pools = engine.Pools(worlds, nworkers=int(doc.get("workers", 4)))
+    out = {}
+    try:
+        futs = [(j, pools.submit(j)) for j in jobs]
+        for j, fu in futs:
+            r = fu.result(timeout=engine.RUN_TIMEOUT_S * 4)
+            out[engine.job_key(j)] = engine.step_sigs(r) if "harness_error" not in r else "HARNESS:" + str(r["harness_error"])[:200]
+    finally:
+        pools.close()
+    print("XRUN-RESULT " + json.dumps(out))
+    return 0
+
+
 def cmd_selftest(a):
     from qsim import selftest
     return selftest.main(a)
@@ -77,6 +112,9 @@ def main():
     r = sub.add_parser("replay")
     r.add_argument("file")
     r.set_defaults(fn=cmd_replay)
+    x = sub.add_parser("xrun")
+    x.add_argument("file")
+    x.set_defaults(fn=cmd_xrun)
     s = sub.add_parser("selftest")
     s.add_argument("--props", default="C04,C12,C13,C14,C19,C20")
     s.add_argument("--seeds", type=int, default=24)
